@@ -161,3 +161,50 @@ func init() {
 	}
 	levels["C12"] = "translation_validation"
 }
+
+// confirmSpecial confirms counterexamples of harnesses that cannot run natively.
+func confirmSpecial(id string, v *sym.Violation) string {
+	if id == "C13" && strings.Contains(v.Harness, "MessageIndex") {
+		return confirmIndexNondeterminism()
+	}
+	return "not-confirmable natively"
+}
+
+// confirmIndexNondeterminism: the solver says the msgTypes index of a message depends on
+// map iteration order when two messages share a short name. Run the real plugin in fresh
+// processes on such a schema and compare the responses byte for byte.
+func confirmIndexNondeterminism() string {
+	scratch, err := os.MkdirTemp("", "symgo-c13-")
+	if err != nil {
+		return "error: " + err.Error()
+	}
+	defer os.RemoveAll(scratch)
+	plugin, err := buildPlugin(scratch)
+	if err != nil {
+		return "error: " + err.Error()
+	}
+	f := newFile("mdup")
+	for _, outer := range []string{"Alpha", "Beta", "Gamma", "Delta", "Epsilon"} {
+		inner := &descriptorpb.DescriptorProto{Name: sp("Inner"), Field: []*descriptorpb.FieldDescriptorProto{mkField(fieldSpec{name: "v", num: 1, kind: "int32", oneof: -1})}}
+		o := &descriptorpb.DescriptorProto{Name: sp(outer), NestedType: []*descriptorpb.DescriptorProto{inner}}
+		o.Field = append(o.Field, mkField(fieldSpec{name: "in", num: 1, kind: "message", typeName: ".vh.mdup." + outer + ".Inner", oneof: -1}))
+		f.MessageType = append(f.MessageType, o)
+	}
+	var first map[string]string
+	for run := 0; run < 24; run++ {
+		res := generateAll(plugin, []*schemaFile{{Name: "mdup", File: f}}, "features=protoc+fast")
+		if res[0].Err != "" {
+			return "violated (plugin failed on a schema with repeated short names: " + trunc(res[0].Err, 120) + ")"
+		}
+		if first == nil {
+			first = res[0].Files
+			continue
+		}
+		for name, c := range res[0].Files {
+			if first[name] != c {
+				return fmt.Sprintf("violated (plugin output for %s differs between fresh processes, run %d)", name, run)
+			}
+		}
+	}
+	return "ok (24 fresh plugin runs produced identical output)"
+}
